@@ -9,7 +9,7 @@
      let kinv = svd.singular_values.fold(0., |acc, x| acc + x.powi(4));
      Ok(norm_sq * norm_sq / kinv) }                                                                            *)
 From Coq Require Import Reals QArith List NArith.
-From SpdVerif Require Import Model.FinSum.
+From SpdVerif Require Import Model.FinSum Model.Hom.
 Local Open Scope nat_scope.
 
 (* ---- the length check, on N (usize) *)
@@ -71,3 +71,8 @@ Definition perm_diag (p : nat -> nat) (c : nat -> R) : nat -> nat -> R :=
   fun i j => if Nat.eqb j (p i) then c i else 0%R.
 Definition is_perm (n : nat) (p q : nat -> nat) : Prop :=
   (forall i, (i < n)%nat -> (p i < n)%nat /\ q (p i) = i) /\ (forall j, (j < n)%nat -> (q j < n)%nat /\ p (q j) = j).
+
+(* ---- setup level: JointSpectrum::schmidt_number(range) = schmidt_number(self.jsa_range(range.into()));
+   the setup's amplitude J(ws, wi) is an arbitrary function, jsa_range tabulates it on the Steps2D grid *)
+Definition setup_schmidt_number (svd : nat -> (nat -> nat -> R) -> option (nat -> R)) (J : R -> R -> cx R) (g : grid R) : outcome :=
+  schmidt_number svd (grid_len g) (tabulate J g).
